@@ -9,6 +9,28 @@ from . import frontend
 from .api import ConcreteCtx, NoConcrete, Ty, Module, _iface_lookup
 
 
+class PeekIter:
+    """The concrete counterpart of the engine's (sequence, position) cell for `Iterator[...]` parameters:
+    a list iterator whose underlying sequence (`xs`) and number of consumed items (`pos`) can be inspected."""
+
+    def __init__(self, items):
+        self.xs = list(items)
+        self.pos = 0
+
+    @property
+    def items(self):
+        return self.xs
+
+    def __iter__(self):
+        return self
+
+    def __next__(self):
+        if self.pos >= len(self.xs):
+            raise StopIteration
+        self.pos += 1
+        return self.xs[self.pos - 1]
+
+
 def make_stub(cx, iface, uid):
     """A concrete object behaving as the interface describes, with the attribute values of the model."""
     target = getattr(iface, 'target_class', None)
@@ -190,6 +212,7 @@ def run_generic(module_names, qname, obligation, model):
         result = func(*pos, **kw)
         if isinstance(result, types.GeneratorType):
             result = list(result)
+            env['yielded'] = result          # generator functions: the ghost sequence of the contract clauses
         outcome = ('return', result)
         print('returned  :', show(result))
     except Exception as e:
